@@ -114,6 +114,34 @@ add("C15", "G", "exploration",
     "no run set); a failed (NaN) country is absent from results by the coordinator's contract.",
     "coordinator real, per-country worker stubbed with seeded ratios and failures; reference aggregation model", "DESIGN.md 5/C15")
 
+add("C06", "H", "exploration",
+    "Engine H drives the real monthly herd state machine animal_populations.main(..., remove_first_month=0) with real tables; the "
+    "simulator plays the environment of the monthly loop and decides every month's feed and grass delivery from a seeded fault stream "
+    "(normal, lost, half, double, burst, delayed, cut off, restored), over countries, the three breeding strategies, horizons 24-120, "
+    "perturbed head counts and both serving orders. Oracle on the returned per-species lists: head-count ledger with zero clamp, all "
+    "flows finite and non-negative, dairy-to-meat transfer identity, labour budget per size class, slaughter <= available, target floor.",
+    "Trusted: the list alignment established in sim/engine_h.py (checked on every run by the list_alignment clause), 1e-9 relative + 1e-6 "
+    "head. One genuine defect (negative births) was repaired by a fix: commit.",
+    "monthly state machine stepped under seeded delivery faults; independent ledger monitor", "DESIGN.md 5/C06")
+add("C07", "H", "exploration",
+    "Same engine; AnimalSpecies.feed_the_species is wrapped at run time and every call is recorded (supply before/after, requirement, "
+    "balance, fed count, herd, ruminant flag, serving position). Oracle: used <= supplied per call and month, net energy delivered <= "
+    "requirement, grass only to ruminants, strict priority order (and the documented order key when a per-head table is given), fed <= "
+    "herd, fed == herd iff requirement met, otherwise herd x delivered/required, starving = herd - fed >= 0 on the value appended for "
+    "that month (stale per-species state across months is the target).",
+    "Trusted: digestion efficiencies 0.6/0.8 read from the code and confirmed by the tests; rounding to the nearest head accepted. Two "
+    "genuine defects (partially-fed over-count, stale fed count of an empty herd) were repaired by fix: commits.",
+    "monthly state machine stepped under seeded delivery faults; per-call energy-accounting monitor", "DESIGN.md 5/C07")
+add("C17", "I", "exploration",
+    "The 21 import scripts run as real subprocesses on a scratch copy of src/ and data/ (git-initialised, outside /repo and /verif, removed "
+    "afterwards): documented order, seeded topological orders of the measured dependency DAG, crash of a script with a torn output file "
+    "followed by a full re-run, re-run on a dirty processed_data/ (garbage, stale, leftovers, out-of-order runs), double runs, skewed "
+    "PYTHONHASHSEED/TZ/locale. After the final pass all 20 processed files and the combined table must be byte-identical to the shipped "
+    "ones, and the produced table passes an independent audit (164 codes once, no NaN, seasonality sums to 1, fractions in [0,1], "
+    "reductions >= -1, quantities >= 0). The averaging-helper clause is not covered (pure function, N/A clause).",
+    "Trusted: the measured DAG (re-measured under strace in history 0), a crash modelled as completion followed by truncation to b bytes.",
+    "multi-stage file pipeline under seeded order/crash/dirty-state faults; byte comparison + table audit", "DESIGN.md 5/C17")
+
 NOT_APPLICABLE = [
     {"property_id": "C10", "reason": "pure function of (value, unit names, four settings); nothing to schedule, fail or interleave - property-based enumeration is the right tool, outside this technique family (DESIGN.md 6)"},
     {"property_id": "C12", "reason": "relates the optimum of one LP to optima of perturbed copies: counterfactual re-solves of a pure function, not behaviour under any schedule or fault (DESIGN.md 6)"},
@@ -140,6 +168,8 @@ def main():
         "engines": [
             {"name": "A", "path": "sim/engine_a.py", "serves_properties": ["C11"], "kind_free_text": "stateful op machine over real Food objects with environment (process-wide flag) ops and a reference label algebra"},
             {"name": "G", "path": "sim/engine_g.py", "serves_properties": ["C15"], "kind_free_text": "real multi-country coordinator with the per-country worker replaced by a seeded stub (real in a sampled slice)"},
+            {"name": "H", "path": "sim/engine_h.py", "serves_properties": ["C06", "C07"], "kind_free_text": "real monthly herd state machine stepped under seeded feed/grass delivery faults, with a call recorder on feed_the_species"},
+            {"name": "I", "path": "sim/engine_i.py", "serves_properties": ["C17"], "kind_free_text": "the 21 import scripts as real subprocesses on a scratch copy; order, crash/torn-output and dirty-directory faults"},
             {"name": "O", "path": "sim/engine_o.py", "serves_properties": ["C13"], "kind_free_text": "option-message fault enumeration against the real dispatcher/setters; pipeline stubbed after dispatch"},
             {"name": "P", "path": "sim/engine_p.py", "serves_properties": ["C01", "C02", "C03", "C04", "C05", "C14", "C16", "C18"], "kind_free_text": "real pipeline (dispatch, parameters, 3 LP rounds, extract/interpret/validate, herd simulator, PuLP+CBC) inside simulated clock / results FS / solver seam with fault injection"},
         ],
